@@ -13,7 +13,7 @@ ID = "C16"
 LEVEL = "exploration"
 TECHNIQUE = "bounded-exhaustive enumeration of optional-field sequences (by SAM tag type and punctuation class) through every re-serialising entry point, byte-level comparison"
 RULE = (
-    "tag alphabet of 32 well-formed fields by type (i: 0, -5, +3; f: 0.5, -0.5, .5, 1e-05, 3E+2; Z: alnum, one of _ # . - : * / % each, the remaining printable punctuation, interior "
+    "tag alphabet of 33 well-formed fields by type (i: 0, -5, +3; f: 0.5, -0.5, .5, 1e-05, 3E+2; Z: alnum, one of _ # . - : * / % each, the remaining printable punctuation, interior "
     "space, empty; A: P, *; B: i,1,-2 and f,0.5; H: 1AE3; two tag names with two types) + a repeated tag + ds:Z; every sequence of <=N fields (N=2 quick, 3 thorough) with the "
     "CIGAR field absent or at every position; read name with and without a space; through view -n, view -f stable (both also on a bgzip-compressed GAF), view -f unstable, realign "
     "(<=60 kb) and realign pass-through (>60 kb). evaluations = records re-emitted and judged; non-trivial = records with >=1 optional field."
@@ -39,6 +39,7 @@ ALPHA = [
     "ha:H:1AE3",
     "tp:A:P",
     "oc:Z:x4=4=y",  # contains the text of the input CIGAR used in realign mode
+    "zq:Z:ends ",  # a value that ends in a blank (never placed in the last column: lines are assumed not to end in white space)
     "ds:i:-42", "cg:i:7",  # the tag names the parser treats specially (ds:Z is dropped, cg:Z is the CIGAR), with another type
     "xa:f:1.5", "za:i:7",  # tag names that also occur with another type (xa:i, za:Z) in other records and in the same record
     "zk:Z:100%", "zm:Z:%s %d%%", "zn:Z:!\"$&'()+,;<=>?@[\\]^`{|}~",  # the remaining printable punctuation, '%' on its own
@@ -164,6 +165,8 @@ def build_records(mode, tier, spec):
         for opt in with_cg_positions(tl, "cg:Z:CG"):
             n += 1
             if n % spec["of"] != spec["shard"]:
+                continue
+            if opt and opt[-1].endswith(" "):
                 continue
             recs.append((n, opt))
     return recs
